@@ -106,9 +106,60 @@ let ndopt_parse_op kv =
      else "")
     (show_o ndopt_show (ndopt_parse bs))
 
+(* ---------------- NDISC ---------------- *)
+let icmp6_proto = z_of_int 58
+let show_opt f o = match o with Some x -> f x | None -> "none"
+let show_ll = show_opt hex_of_bytes
+let ndisc_show r = match r with
+  | NdiscRouterSolicit ll -> Printf.sprintf "Ok kind=rs ll=%s" (show_ll ll)
+  | NdiscRouterAdvert (hl, fl, lt, rt, xt, ll, mtu, pi) ->
+      Printf.sprintf "Ok kind=ra hl=%s rflags=%s lt=%s rt=%s xt=%s ll=%s mtu=%s pi=%s" (sz hl) (sz fl) (sz lt) (sz rt) (sz xt)
+        (show_ll ll) (show_opt sz mtu) (show_opt (fun p -> "1 " ^ show_prefix p) pi)
+  | NdiscNeighborSolicit (ta, ll) -> Printf.sprintf "Ok kind=ns target=%s ll=%s" (hex_of_bytes ta) (show_ll ll)
+  | NdiscNeighborAdvert (fl, ta, ll) -> Printf.sprintf "Ok kind=na nflags=%s target=%s ll=%s" (sz fl) (hex_of_bytes ta) (show_ll ll)
+  | NdiscRedirect (ta, da, ll, rh) ->
+      Printf.sprintf "Ok kind=redirect target=%s dest=%s ll=%s rh=%s" (hex_of_bytes ta) (hex_of_bytes da) (show_ll ll)
+        (show_opt (fun h -> "1 " ^ show_redir h) rh)
+let has kv k = geto kv k <> None
+let ll_of kv = if has kv "ll" then Some (getb kv "ll") else None
+let ndisc_repr kv = match get kv "kind" with
+  | "rs" -> NdiscRouterSolicit (ll_of kv)
+  | "ra" -> NdiscRouterAdvert (geti kv "hl", geti kv "rflags", geti kv "lt", geti kv "rt", geti kv "xt", ll_of kv,
+                               (if has kv "mtu" then Some (geti kv "mtu") else None),
+                               (if has kv "pi" then Some (prefix_of kv) else None))
+  | "ns" -> NdiscNeighborSolicit (getb kv "target", ll_of kv)
+  | "na" -> NdiscNeighborAdvert (geti kv "nflags", getb kv "target", ll_of kv)
+  | _ -> NdiscRedirect (getb kv "target", getb kv "dest", ll_of kv, (if has kv "rh" then Some (redir_of kv) else None))
+let is_ndisc_type bs = match bs with b :: _ -> (let x = int_of_z b in x >= 0x85 && x <= 0x89) | [] -> false
+let ndisc_icmp kv bs =
+  if not (is_ndisc_type bs) then "-" else
+  let src = getb kv "psrc" and dst = getb kv "pdst" in
+  show_o ndisc_show (ndisc_icmp_parse (wb_pseudo_ok src dst icmp6_proto) (getbool kv "rx") bs)
+let ndisc_emit_op kv =
+  let r = ndisc_repr kv in
+  let src = getb kv "psrc" and dst = getb kv "pdst" in
+  let raw = ndisc_emit r (getb kv "buf") in
+  let res = ndisc_icmp_emit (wb_pseudo_fill src dst icmp6_proto) (getbool kv "tx") r (getb kv "buf") in
+  match res with
+  | Ok bs -> Printf.sprintf "raw %s ret %s | %s | icmp %s | blen=%s" (ob raw) (show_bytes bs)
+               (show_o ndisc_show (ndisc_parse bs)) (ndisc_icmp kv bs) (sz (ndisc_buffer_len r))
+  | _ -> Printf.sprintf "raw %s ret PANIC | -" (ob raw)
+let ndisc_parse_op kv =
+  let bs = getb kv "bytes" in
+  let c = icmp6h_check_len bs in
+  Printf.sprintf "chk %s%s parse %s | icmp %s" (chk c)
+    (if is_ok c && is_ndisc_type bs then
+       Printf.sprintf " acc hl=%s rflags=%s lt=%s rt=%s xt=%s target=%s nflags=%s dest=%s payload=%s"
+         (oz (ndisc_current_hop_limit bs)) (oz (ndisc_router_flags bs)) (oz (ndisc_router_lifetime bs))
+         (oz (ndisc_reachable_time bs)) (oz (ndisc_retrans_time bs)) (ohex (ndisc_target_addr bs))
+         (oz (ndisc_neighbor_flags bs)) (ohex (ndisc_dest_addr bs)) (ob (icmp6h_payload bs))
+     else "")
+    (show_o ndisc_show (ndisc_parse bs)) (ndisc_icmp kv bs)
+
 (* ---------------- dispatch ---------------- *)
 let dispatch : (string * ((string * string) list -> string) * ((string * string) list -> string)) list = [
   ("ndiscopt", ndopt_emit_op, ndopt_parse_op);
+  ("ndisc", ndisc_emit_op, ndisc_parse_op);
 ]
 
 let () =
